@@ -940,11 +940,23 @@ def check_C18(ctx, rep):
                 return contains(e, lambda y: isinstance(y, tuple) and y and y[0] == 'fld' and y[3] == 'scheduled_internal_timer') and not is_new_expiry(e)
             later = any(f[0] == 'cmp' and f[1] == 'lt' and f[5] is True and is_running(f[2]) and is_new_expiry(f[3]) for f in S) or \
                 any(f[0] == 'cmp' and f[1] == 'le' and f[5] is False and is_new_expiry(f[2]) and is_running(f[3]) for f in S)
+            # the comparison may be a value assigned to a flag local (`replace || current < new`): look inside boolean facts
+            def cmp_in_value(op):
+                for f in S:
+                    if f[0] == 'btrue' and f[2] is True:
+                        for y in walk(f[1]):
+                            if isinstance(y, tuple) and y and y[0] == 'bin' and y[1] == op and is_running(y[2]) and is_new_expiry(y[3]):
+                                return True
+                            if isinstance(y, tuple) and y and y[0] == 'call' and y[1].endswith('PartialOrd::' + op.lower()) and len(y[2]) == 2 and is_running(y[2][0]) and is_new_expiry(y[2][1]):
+                                return True
+                return False
+            later = later or cmp_in_value('Lt')
             # comparison table: the running expiry is compared strictly (an equal expiry is not "later")
             nonstrict = any(f[0] == 'cmp' and f[1] == 'le' and ((is_running(f[2]) and is_new_expiry(f[3])) or (is_new_expiry(f[2]) and is_running(f[3]))) and
                             ((f[5] is True and is_running(f[2])) or (f[5] is False and is_new_expiry(f[2]))) for f in S)
+            nonstrict = nonstrict or cmp_in_value('Le')
             if st and not replace and not no_timer:
-                rep.ob('C18.R3', tu, 'restart-needs-strictly-later-expiry', later and not nonstrict, 'a non-replacing update restarts a running timer only when running < new expiry')
+                rep.ob('C18.R3', tu, 'restart-needs-strictly-later-expiry', later and not nonstrict, 'a non-replacing update restarts a running timer only when running < new expiry' + ('' if (later and not nonstrict) else ': ' + show_facts(S)))
             if replace or no_timer or later:
                 why = 'replace' if replace else ('no timer running' if no_timer else 'later expiry')
                 rep.ob('C18.R3', tu, 'timer-started-when:%s' % why.replace(' ', '-'), bool(st), '' if st else 'path with %s does not store the timer: %s' % (why, show_facts(S)))
